@@ -8,6 +8,7 @@ import (
 	"github.com/ClickHouse/ch-go/proto"
 
 	"verif/checks/seq/reg"
+	"verif/checks/seq/regtab"
 	"verif/refcol"
 	"verif/refwire"
 	"verif/vk"
@@ -23,7 +24,7 @@ func kinds18() []kind18 {
 	var out []kind18
 	for _, l := range []string{"UInt8", "Int8", "UInt64", "String", "Enum8('a'=1,'b'=2,'c'=-3)", "Enum8", "DateTime", "DateTime('UTC')", "DateTime64(3)", "DateTime64(6)",
 		"Array(String)", "Map(String, String)", "LowCardinality(String)", "FixedString(3)", "FixedString(8)", "Nullable(String)", "Array(Enum8('a'=1,'b'=2,'c'=-3))"} {
-		e, ok := reg.ByLabel(l)
+		e, ok := regtab.ByLabel(l)
 		if !ok {
 			panic("C18: no registry entry " + l)
 		}
